@@ -34,6 +34,29 @@ def handle (op : String) (j : Json) : Option Json :=
                               ("holds", Spec.C15.holds ex m levels (getStr j "kind")),
                               ("expected_levels", match ex.levels with | some l => jStrs l | none => Json.null),
                               ("expected_kind", ex.kind)])
+  | "c15_predict" =>
+    -- Spec.C15.expectedTrials on the values `response.evaluate_new_data(new frame)` returned
+    match Scanner.scan (getStr j "formula").toList with
+    | .error _ => some (errJ "scan")
+    | .ok ts =>
+      match Parser.parse Generated.parserTable ts with
+      | .error _ => some (errJ "parse")
+      | .ok e =>
+        match e with
+        | .binary r op _ =>
+          if op.kind == .TILDE then
+            let frame := frameOfJson ((j.getObjVal? "frame").toOption.getD Json.null)
+            let names := namesOfJson ((j.getObjVal? "names").toOption.getD Json.null)
+            let env : Env := { frame, names }
+            match Spec.C15.expectedTrials env r with
+            | .error er => some (errTag er)
+            | .ok ex =>
+              let got : List Entry := (getArr j "column").map (fun x =>
+                match x with | .null => none | v => ratOfJson? v)
+              some (Json.mkObj [("holds", Spec.C15.holdsTrials ex got),
+                                ("expected_rows", ex.length), ("returned_rows", got.length)])
+          else some (Json.mkObj [("has_response", false)])
+        | _ => some (Json.mkObj [("has_response", false)])
   | _ => none
 
 end FormulaeModel.Driver.C15
